@@ -105,6 +105,10 @@ class BaseClient:
 
         if isinstance(msg, message.DelProperty):
             device = self.get_device(msg.device)
+            if device and not msg.name:
+                # delProperty without a property name deletes the whole device
+                del self.devices[msg.device]
+                device = None
 
         if device:
             device.process_message(msg)
